@@ -107,6 +107,12 @@ def run(rep, tier, seed):
                 if got != exp:
                     rep.violation("kleene-table", {"formula": str(st), "inputs": res["val"], "expected": exp, "got": got},
                                   {"tree": res["tree"], "val": res["val"], "sub": str(st), "expected": exp, "got": got})
+                gotn = res.get("states_node", {}).get(nid, res.get("states_node", {}).get(str(nid)))
+                if gotn is not None and gotn != exp:
+                    rep.violation("kleene-table-node-level",
+                                  {"problem": "one node-level upward() call per formula, operands first, does not evaluate the formula",
+                                   "formula": str(st), "inputs": res["val"], "expected": exp, "got": gotn},
+                                  {"tree": res["tree"], "val": res["val"], "sub": str(st), "expected": exp, "got": gotn})
     rep.obligation("correspondence:trees-3v", ndis == 0, f"{len(cases)} batches, {ncmp} lines compared, {ndis} disagree")
     rep.extra["exhaustive"] = True
     rep.extra["exhaustive_space"] = exhaustive
